@@ -10,6 +10,13 @@ Pieces (see coq/Properties/C07.v for what is proved):
    address is, independently of the model) that is bounded by line boundary / whitespace / punctuation
    other than ':' in the input must be gone from what reaches the sink; output must not depend on the
    splitting into Write calls; every block the sink receives ends with a newline.
+ * long lines (3 000 - 20 000 bytes, padding words and many addresses, delivered over several Writes cut inside
+   addresses and at every power of two 512..16384 +-1 of pending bytes, with and without the final newline) use the
+   driver op `lwrite` (compact replayable encoding). The extracted matcher needs seconds per 20 KB line, so the model
+   is run ONCE per stream (the stream in a single Write; by C07_write_split_invariant its answer is the same for
+   every splitting); the ~25 splittings of each stream are judged on the implementation alone: no surviving address,
+   complete lines only, same output as every other splitting of the stream.
+   Lines of 600 - 2 000 bytes cut the same way are compared with the model case by case (kinds write-mid-*).
 """
 import ipaddress
 import os
@@ -115,13 +122,27 @@ def classify(tok, line, i):
     return "address-survives"
 
 
+_NEED = {}
+
+
+def needed(stream):
+    """token -> start offsets of its bounded occurrences in stream (memoised: the same long stream is
+    examined once per splitting)"""
+    need = _NEED.get(stream)
+    if need is None:
+        need = {}
+        for (i, j) in occurrences(stream):
+            need.setdefault(stream[i:j], []).append(i)
+        if len(_NEED) > 256:
+            _NEED.clear()
+        _NEED[stream] = need
+    return need
+
+
 def leaks(stream, out):
     """stream: bytes given to the scrubber (complete lines); out: what reached the sink.
     Returns (key, text) of the first leak or None."""
-    need = {}
-    for (i, j) in occurrences(stream):
-        tok = stream[i:j]
-        need.setdefault(tok, []).append(i)
+    need = needed(stream)
     for tok, pos in sorted(need.items(), key=lambda kv: kv[1][0]):
         allowed = count_overlapping(stream, tok) - len(pos)
         if count_overlapping(out, tok) > allowed:
@@ -167,6 +188,50 @@ def conc_stream(arg):
     return b"".join(unhex(x[1:] or "-") for wr in arg.split(";") for x in wr.split(","))
 
 
+def filler(n, k):
+    """the w<n>.<k> piece of an lwrite case (same definition in the Go driver)"""
+    return bytes(0x20 if (j + k) % 7 == 6 else 0x67 + (j + k) % 13 for j in range(n))
+
+
+_LSTREAM = {}
+
+
+def lwrite_stream(arg):
+    st = _LSTREAM.get(arg)
+    if st is None:
+        out = []
+        for pc in arg.split(","):
+            if pc[0] == "w":
+                n, k = pc[1:].split(".")
+                out.append(filler(int(n), int(k)))
+            else:
+                out.append(unhex(pc[1:] or "-"))
+        if len(_LSTREAM) > 64:
+            _LSTREAM.clear()
+        st = _LSTREAM[arg] = b"".join(out)
+    return st
+
+
+def lwrite_cuts(arg):
+    return [] if arg == "-" else [int(c) for c in arg.split(",")]
+
+
+def pending_peak(stream, cuts):
+    """largest number of bytes without a newline that are pending at the end of a Write"""
+    peak = 0
+    for c in cuts + [len(stream)]:
+        peak = max(peak, c - (stream.rfind(b"\n", 0, c) + 1))
+    return peak
+
+
+def describe_lwrite(a):
+    st, cuts = lwrite_stream(a[2]), lwrite_cuts(a[3])
+    longest = max(len(l) for l in st.split(b"\n"))
+    return ("stream of %d bytes (longest line %d) delivered in %d Writes (cuts at %s%s; up to %d bytes pending without a newline)"
+            % (len(st), longest, len(cuts) + 1, ",".join(map(str, cuts[:8])) or "-", ",..." if len(cuts) > 8 else "",
+               pending_peak(st, cuts)))
+
+
 EXACT = {}      # case line -> expected exact output (single address, clean context)
 
 
@@ -185,6 +250,17 @@ def prop(line, impl, model):
         # seven `h:` groups with the delimiter `:\s` (alternative order of the pattern); nothing of the address remains
         if want is not None and out != want and out != want.replace(SCRUBBED, SCRUBBED + b":", 1):
             return "address not replaced as a whole: got %r, expected %r" % (out.decode("latin1"), want.decode("latin1"))
+    elif op == "lwrite":
+        out, nl = parse_out(impl)
+        if out is None:
+            return "unparsable driver output " + impl[:100]
+        stream = lwrite_stream(a[2])
+        lk = leaks(complete_part(stream), out)
+        if not nl:
+            return ("the sink received a block that does not end with a newline (partial line emitted): %s%s"
+                    % (describe_lwrite(a), "; " + lk[1][:160] if lk else ""))
+        if lk:
+            return "%s: %s" % (describe_lwrite(a), lk[1])
     elif op in ("write", "conc"):
         out, nl = parse_out(impl)
         if out is None:
@@ -219,6 +295,15 @@ def key_of(line, impl, model):
                 return k
         return "not-fully-replaced"
     out, nl = parse_out(impl)
+    if op == "lwrite":
+        st, cuts = lwrite_stream(a[2]), lwrite_cuts(a[3])
+        if out is not None and not nl:
+            # an unfinished line left the buffer: was it a long pending line (and nothing shorter fails)?
+            k = "long-pending-line-flushed" if pending_peak(st, cuts) >= 512 else "partial-line-emitted"
+            # ... and did an address that was cut by a Write boundary get out in pieces?
+            return k + "-address-leaks" if leaks(complete_part(st), out) else k
+        lk = leaks(complete_part(st), out or b"")
+        return lk[0] if lk else "lwrite"
     if out is not None and not nl:
         return "partial-line-emitted"
     if op == "write":
@@ -479,6 +564,145 @@ def gen_write(ctx, add, groups_out):
             emit(splits_random(rng, st), "write-long-random-split", gid)
 
 
+# ------------------------------------------------------------------ long lines
+
+POW2 = [512, 1024, 2048, 4096, 8192, 16384]
+LSEP = [" ", " ", " ", ",", ";", "=", "(", ")", "\t", "|", "\"", "'", "<", ">"]
+LONG_LENGTHS = [3000, 4095, 4096, 4097, 5000, 8191, 8192, 8193, 12000, 16383, 16384, 16385, 20000]
+MID_LENGTHS = [600, 1023, 1024, 1025, 1500, 2000]
+
+
+def planted_address(rng, minlen=7):
+    while True:
+        a = address(rng)[0]
+        if len(a) >= minlen:
+            return a
+
+
+def long_line(rng, L, nextra):
+    """One line of exactly L bytes (without newline): filler words, look-alikes and addresses, each address
+    between two delimiters; one address lies across every offset P of POW2 (so that P-1, P and P+1 are inside
+    it). Returns (pieces, spans): pieces = [("w", n, k) | ("x", bytes)], spans = [(start, end)] of the addresses."""
+    slots = []                                    # (start of the delimiter before, text of delimiter+address+delimiter)
+
+    def free(s, e):
+        return s >= 1 and e <= L - 1 and all(e + 1 < s2 or s2 + len(t2) + 1 < s for s2, t2 in slots)
+
+    for P in POW2:
+        if P + 70 < L:
+            a = planted_address(rng)
+            r = rng.randrange(2, len(a) - 1)      # address starts at P - r, ends at or after P + 2
+            t = rng.choice(LSEP) + a + rng.choice(LSEP)
+            slots.append((P - r - 1, t))
+    for _ in range(nextra * 3):
+        if len(slots) >= nextra + len(POW2):
+            break
+        a = address(rng)[0] if rng.random() < 0.85 else rng.choice(FILL)
+        t = rng.choice(LSEP) + a + rng.choice(LSEP)
+        s0 = rng.randrange(1, max(2, L - len(t) - 1))
+        if free(s0, s0 + len(t)):
+            slots.append((s0, t))
+    slots.sort()
+    pieces, spans, cur = [], [], 0
+    for s0, t in slots:
+        if s0 > cur:
+            pieces.append(("w", s0 - cur, rng.randrange(13 * 7)))
+        pieces.append(("x", L1(t)))
+        spans.append((s0 + 1, s0 + len(t) - 1))
+        cur = s0 + len(t)
+    if L > cur:
+        pieces.append(("w", L - cur, rng.randrange(13 * 7)))
+    return pieces, spans
+
+
+LONG_ENDINGS = [b"\n", b"", b"\ntail 1.2.3.4", b"\n", b"", b"\nnext [::1]:80 ok\n"]
+
+
+def long_stream(rng, L, nextra, idx):
+    """(pieces, bytes, base = offset of the long line, spans of the planted addresses, offset of the line's end);
+    idx rotates through the endings (with / without the final newline, something after it)"""
+    prefix = rng.choice([b"", b"", b"started 192.0.2.7:443 ok\n", b"\n", b"x\n[2001:db8::1]:80\n"])
+    ending = LONG_ENDINGS[idx % len(LONG_ENDINGS)]
+    pieces, spans = long_line(rng, L, nextra)
+    base = len(prefix)
+    pieces = ([("x", prefix)] if prefix else []) + pieces + ([("x", ending)] if ending else [])
+    merged = []
+    for pc in pieces:
+        if pc[0] == "x" and merged and merged[-1][0] == "x":
+            merged[-1] = ("x", merged[-1][1] + pc[1])
+        else:
+            merged.append(pc)
+    st = b"".join(filler(pc[1], pc[2]) if pc[0] == "w" else pc[1] for pc in merged)
+    kind = ("eol" if ending == b"\n" else "noeol" if not ending else "eol-then-tail" if not ending.endswith(b"\n") else "eol-then-line")
+    return merged, st, base, [(a + base, b + base) for a, b in spans], base + L, kind
+
+
+def long_splittings(rng, st, base, spans, end, full):
+    """[(kind, cuts)]: the write boundaries tried on one long stream"""
+    n = len(st)
+    out = [("whole", [])]
+    pows = [P for P in POW2 if base + P + 1 < n]
+    for P in pows:
+        for d in ((-1, 0, 1) if full else (rng.choice([-1, 0, 1]),)):
+            out.append(("pow2%+d" % d, [base + P + d]))
+    if pows:
+        out.append(("pow2-all", [base + P + rng.choice([-1, 0, 1]) for P in pows]))
+    inner = [rng.randrange(a + 1, b) for a, b in spans if b - a >= 2]
+    if inner:
+        out.append(("in-every-address", sorted(set(inner))))
+        for _ in range(2):
+            k = rng.choice([1, 2, 3, 5, 8])
+            cuts = set(rng.sample(inner, min(k, len(inner))))
+            cuts |= {rng.randrange(0, n + 1) for _ in range(rng.choice([0, 1, 3]))}
+            out.append(("random-in-addresses", sorted(cuts)))
+    for c in rng.sample([512, 1000, 1024, 4095, 4096, 4097, 8192], 2 if full else 1):
+        if c < n:
+            out.append(("chunks-%d" % c, list(range(c, n, c))))
+    if end < n:
+        out.append(("newline-alone", [end, end + 1]))
+    else:
+        out.append(("last-byte-alone", [n - 1]))
+    return out
+
+
+def gen_mid(ctx, add, groups_out, gid0):
+    """lines of 600..2000 bytes built and cut like the long ones, as ordinary `write` cases (model + implementation)"""
+    rng = ctx.rng
+    gid = gid0
+    for rep in range(10 if ctx.tier == "thorough" else 1):
+        for q, L in enumerate(MID_LENGTHS):
+            gid += 1
+            pieces, st, base, spans, end, ekind = long_stream(rng, L, rng.choice([3, 10, 30]), q + rep)
+            for kind, cuts in long_splittings(rng, st, base, spans, end, full=True):
+                chunks = [st[a:b] for a, b in zip([0] + cuts, cuts + [len(st)])]
+                case = "%s write %s" % (AREA, ",".join(hx(c) for c in chunks))
+                add(case, "write-mid-%s-%s" % (ekind, re.sub(r"\d+$", "N", kind) if kind.startswith("chunks") else kind))
+                groups_out.setdefault(gid, []).append(case)
+
+
+def gen_long(ctx):
+    """[(case lines, kinds)] per stream: lwrite cases, implementation only"""
+    rng = ctx.rng
+    thorough = ctx.tier == "thorough"
+    lengths = list(LONG_LENGTHS) + [rng.randrange(3000, 20001) for _ in range(5)]
+    if thorough:
+        lengths = lengths * 3 + [rng.randrange(3000, 20001) for _ in range(40)] + [rng.choice(POW2[3:]) + rng.randrange(-40, 41) for _ in range(20)]
+    streams = []
+    off = rng.randrange(len(LONG_ENDINGS))
+    for q, L in enumerate(lengths):
+        pieces, st, base, spans, end, ekind = long_stream(rng, L, rng.choice([3, 12, 40, 120, 200]), q + off)
+        enc = ",".join("w%d.%d" % (pc[1], pc[2]) if pc[0] == "w" else hx(pc[1]) for pc in pieces)
+        assert lwrite_stream(enc) == st
+        cases, kinds = [], []
+        for kind, cuts in long_splittings(rng, st, base, spans, end, full=True):
+            case = "%s lwrite %s %s" % (AREA, enc, ",".join(map(str, cuts)) or "-")
+            assert len(case) < 20000, len(case)          # the replay file keeps 20000 characters of a case
+            cases.append(case)
+            kinds.append("lwrite-implonly-%s-%s" % (ekind, re.sub(r"\d+$", "N", kind) if kind.startswith("chunks") else kind))
+        streams.append((cases, kinds))
+    return streams
+
+
 def gen_conc(ctx, add):
     rng = ctx.rng
     for _ in range(40 if ctx.tier == "quick" else 400):
@@ -603,11 +827,91 @@ def pinned_witnesses(ctx, exe, ascii_cases):
         ctx.extra["pinned_model_vs_impl"] = dict(cases=len(sub), disagreements=sum(1 for a, b in zip(m0, impl) if a != b))
 
 
+def split_dependence(ctx, groups, res, mod, label):
+    """the cases of one group deliver the same stream with different write boundaries: same output required.
+    mod = the model's answers, or None for implementation-only cases."""
+    for gid, cases in groups.items():
+        outs = {res[c] for c in cases}
+        if len(outs) > 1 and not any(prop(c, res[c], mod and mod[c]) for c in cases):
+            # (when a case of the group already fails the property the cause is reported there)
+            a = cases[0]
+            b = next(c for c in cases if res[c] != res[a])
+            if a.split(" ")[1] == "lwrite":
+                ctx.violation("split-dependent-output-long-line",
+                              "output depends on how the stream is split into Write calls: %s -> %s... but %s -> %s..."
+                              % (describe_lwrite(a.split(" ")), first_difference(res[a], res[b])[0], describe_lwrite(b.split(" ")),
+                                 first_difference(res[a], res[b])[1]),
+                              dict(label=label, case=a, other=b, impl=res[a][:4000], impl_other=res[b][:4000]))
+                continue
+            # the deviating case is the one the per-line model disagrees with; if one of its writes carries
+            # more than one line, that is the cause
+            dev = next((c for c in (a, b) if res[c] != mod[c]), a)
+            multi = any(b"\n" in unhex(x[1:] or "-")[:-1] for x in dev.split(" ")[2].split(","))
+            ctx.violation("multi-line-write" if multi else "split-dependent-output",
+                          "output depends on how the stream is split into Write calls: `%s` -> %s but `%s` -> %s"
+                          % (a[:300], res[a][:200], b[:300], res[b][:200]),
+                          dict(label=label, case=a[:20000], other=b[:20000], impl=res[a][:4000], impl_other=res[b][:4000]))
+
+
+def first_difference(ra, rb):
+    """readable context of the first difference of two driver answers"""
+    (oa, _), (ob, _) = parse_out(ra), parse_out(rb)
+    if oa is None or ob is None:
+        return ra[:80], rb[:80]
+    i = next((k for k in range(min(len(oa), len(ob))) if oa[k] != ob[k]), min(len(oa), len(ob)))
+    lo = max(0, i - 30)
+    return ("%r at output offset %d" % (oa[lo:i + 40].decode("latin1"), i), "%r" % ob[lo:i + 40].decode("latin1"))
+
+
+def long_lines(ctx, exe):
+    """Lines of 3 000 - 20 000 bytes: prop on every case + same answer for every splitting of one stream, on the
+    implementation alone; the model (seconds per 20 KB line) is compared once per stream, on the single-Write case."""
+    streams = gen_long(ctx)
+    ncases = nmodel = ndis = 0
+    for lo in range(0, len(streams), 8):                      # bounded memory: a few streams per driver run
+        batch = streams[lo:lo + 8]
+        lines = [c for cases, _ in batch for c in cases]
+        kinds = [k for _, ks in batch for k in ks]
+        rc, impl, err = vlib.run_impl(exe, lines)
+        if rc != 0 or len(impl) != len(lines):
+            idx = len(impl)
+            ctx.violation("driver-crash", "implementation driver died (rc=%s) at case %d: %s" % (rc, idx, err[-600:]),
+                          dict(label="long-lines", case=lines[idx] if idx < len(lines) else None, stderr=err[-2000:]))
+            impl = impl + ["!died"] * (len(lines) - len(impl))
+        res = dict(zip(lines, impl))
+        for l, k, r in zip(lines, kinds, impl):
+            ctx.count(l, kind=k)
+            ncases += 1
+            bad = prop(l, r, None)
+            if bad:
+                ctx.violation(key_of(l, r, None), bad, dict(label="long-lines", case=l, impl=r[:4000]))
+        split_dependence(ctx, {g: cases for g, (cases, _) in enumerate(batch)}, res, None, "long-lines-split")
+        # the model on the stream delivered in one Write (cases[0] is the splitting `whole`)
+        whole = [cases[0] for cases, _ in batch]
+        model = vlib.run_model(["%s write %s" % (AREA, hx(lwrite_stream(c.split(" ")[2]))) for c in whole])
+        for c, m in zip(whole, model):
+            nmodel += 1
+            if m != res[c] and not prop(c, res[c], m):
+                ndis += 1
+                if ndis <= 3:
+                    ctx.not_shown("correspondence long-lines: model and implementation disagree on the single-Write delivery of `%s`: "
+                                  "%s; the property predicate found no failure on it" % (c[:400], " vs ".join(first_difference(m, res[c]))))
+    ctx.extra["long_lines"] = dict(streams=len(streams), cases=ncases, model_compared_single_write=nmodel,
+                                   how="every splitting on the implementation alone (op lwrite): no bounded address of the stream's "
+                                       "complete lines in the sink, every sink block ends with a newline, identical sink content for "
+                                       "every splitting of the same stream; the model is compared once per stream (stream in one Write; "
+                                       "split invariance of the model is theorem C07_write_split_invariant); lines of 600-2000 bytes cut "
+                                       "the same way are compared with the model case by case (kinds write-mid-*)")
+
+
 def run(ctx):
     ctx.trusted += ["harness/overlay/zz_verif/regex2coq (Go regexp/syntax parser -> Coq term) and the in-package pattern dump",
                     "Go's regexp engine: modelled by the leftmost-first backtracking matcher of coq/Model/Regex.v, tied by correspondence only",
                     "python's ipaddress module decides what counts as an address in the failing-input search"]
     ctx.assumptions += ["model = coq/Model/{Regex,RegexIncl,Scrub}.v over the GENERATED coq/Gen/SafelogPatterns.v",
+                        "lines of 3000-20000 bytes (kinds lwrite-implonly-*): every splitting is judged on the implementation only (no surviving "
+                        "address, complete lines only, output independent of the write boundaries); the model is compared once per stream "
+                        "(single Write) and case by case on lines up to 2000 bytes",
                         "bytes >= 0x80 are single symbols of the class [^\\w:] (Go decodes runes; equal output because the delimiters are not consumed)"]
     changed = regenerate_patterns(ctx)
     ctx.extra["patterns_regenerated"] = bool(changed)
@@ -629,22 +933,10 @@ def run(ctx):
     # writes: output must not depend on the splitting
     lines, kinds, groups = [], [], {}
     gen_write(ctx, add, groups)
+    gen_mid(ctx, add, groups, max(groups) + 1)
     model, impl = ctx.correspond(exe, lines, kinds, label="write", prop=prop, key_of=key_of, crosscheck=6)
-    res = dict(zip(lines, impl))
-    mod = dict(zip(lines, model))
-    for gid, cases in groups.items():
-        outs = {res[c] for c in cases}
-        if len(outs) > 1 and not any(prop(c, res[c], mod[c]) for c in cases):
-            # (when a case of the group already fails the property the cause is reported there)
-            a = cases[0]
-            b = next(c for c in cases if res[c] != res[a])
-            # the deviating case is the one the per-line model disagrees with; if one of its writes carries
-            # more than one line, that is the cause
-            dev = next((c for c in (a, b) if res[c] != mod[c]), a)
-            multi = any(b"\n" in unhex(x[1:] or "-")[:-1] for x in dev.split(" ")[2].split(","))
-            ctx.violation("multi-line-write" if multi else "split-dependent-output",
-                          "output depends on how the stream is split into Write calls: `%s` -> %s but `%s` -> %s"
-                          % (a[:300], res[a][:200], b[:300], res[b][:200]), dict(label="write-split", case=a, other=b, impl=res[a], impl_other=res[b]))
+    split_dependence(ctx, groups, dict(zip(lines, impl)), dict(zip(lines, model)), "write-split")
+    long_lines(ctx, exe)
     lines, kinds = [], []
     gen_conc(ctx, add)
     race = ctx.tier == "thorough"
@@ -669,7 +961,7 @@ def replay(ctx, doc):
         for case in (v["replay"].get("case"), v["replay"].get("other")):
             if not case:
                 continue
-            m = vlib.run_model([case])[0]
+            m = "(implementation only)" if case.split(" ")[1] == "lwrite" else vlib.run_model([case])[0]
             rc, r, err = vlib.run_impl(exe, [case])
             r = r[0] if r else "!died"
             p = prop(case, r, m)
